@@ -81,4 +81,10 @@ META = {
         note="The reference is a 3-slot decision function; porcupine v1.3.0 decides the concurrent histories (a checker time-out is inconclusive).",
         technique="runtime monitoring: instrumented handlers vs reference decision function (exhaustive table); porcupine linearizability check of recorded register/dispatch histories; race detector",
     ),
+    "C11": dict(
+        text="Exploration with a bounded-exhaustive core: every CER of the product space up to 3 (thorough 4) application AVPs - 28 560 (372 000) CERs - is sent to a real server state machine and its CEA, the transport close and the resulting metadata are compared with a predicate computed independently from the dictionary XML; random multisets beyond the bound.",
+        design_ref="DESIGN.md section 4, C11",
+        note="Trusts the reference predicate (common application = an advertised id that is relay or supported with that type by an application element of the XML) and refcodec for building CERs and parsing CEAs.",
+        technique="runtime monitoring: end-to-end CER/CEA exchange vs reference acceptance predicate, transport close log and metadata probe, inside synctest bubbles under the race detector",
+    ),
 }
